@@ -1376,3 +1376,15 @@ Example ex_random :
   map (fun d => enc_sel (fst (get_usable (Random d) ex_rs 9))) [0; 1; 2; 3; 7]%nat = [0; 2; 3; 0; 2] /\
   get_healthy (Random 5) [ {| st := Degraded; cf := 0; cs := 1 |} ] 9 = (None, 9).
 Proof. vm_compute. split; reflexivity. Qed.
+
+(* ================= observers ================= *)
+Lemma observers_cannot_change_status {O} (obs : rstate -> status -> rstate -> list O) f s rs :
+  fst (run_observed obs f s rs) = run_results f s rs.
+Proof.
+  unfold run_observed, run_results.
+  assert (G : forall acc, fst (fold_left (fun (acc : rstate * list O) x =>
+               let r' := apply_result f s (fst acc) x in (r', snd acc ++ obs (fst acc) x r')) rs acc) =
+               fold_left (apply_result f s) rs (fst acc)).
+  { induction rs as [|x rs IH]; intros acc; [reflexivity|]. cbn [fold_left]. rewrite IH. reflexivity. }
+  apply G.
+Qed.
